@@ -88,20 +88,60 @@ static int ncb_T, ncb_R, ncb_E, ncb_once, ncb_fin, ncb_self, ncb_watch, ncb_fore
 static int op_done;           /* the call under test has been made */
 static void the_call(void);
 
-/* ---- solver-chosen allocation faults through event.c's own hooks ---------- */
-static int c08_fail_on;
+/* ---- solver-chosen faults ----------------------------------------------------------------
+ * The fault schedule of the call under test is a vector chosen by the solver, but each value of the vector
+ * runs in its own unmerged branch (FOR_FAULTS): bit 0 = the 1st allocation of the call fails, bit 1 = the 2nd
+ * fails, bit 2 = the back end / signal back end refuses.  Allocations after the 2nd fail nondeterministically.
+ * (An allocator that decides per call returns ite(fail, NULL, obj); the library's own `if (!p) return` does
+ * not turn that back into a plain pointer for symex, every list link written through it becomes symbolic --
+ * measured: event_new + event_free > 150 s, per-branch schedule 10 s.) */
+static int c08_fail_on, c08_fail_vec, c08_nalloc;
+static int c08_alloc_fails(void)
+{
+	int k;
+	if (!c08_fail_on) return 0;
+	k = c08_nalloc++;
+	if (k < 2) return (c08_fail_vec >> k) & 1;
+	return vp_bool();
+}
+static void c08_set_faults(int vec)
+{
+	c08_fail_on = 1; c08_fail_vec = vec; c08_nalloc = 0;
+	vp_be_fail_add = vp_be_fail_del = vp_sig_fail = (vec >> 2) & 1;
+#if C08_OP == OP_LOOP
+	vp_be_fail_dispatch = (vec >> 2) & 1;
+#endif
+}
+#define FAULTS_OFF() do { c08_fail_on = 0; vp_be_fail_add = vp_be_fail_del = vp_sig_fail = vp_be_fail_dispatch = 0; } while (0)
+#define FOR_FAULTS(stmt) do { \
+	int f_ = (int)vp_range(0, 7); \
+	if (f_ == 0) { c08_set_faults(0); stmt; } else if (f_ == 1) { c08_set_faults(1); stmt; } \
+	else if (f_ == 2) { c08_set_faults(2); stmt; } else if (f_ == 3) { c08_set_faults(3); stmt; } \
+	else if (f_ == 4) { c08_set_faults(4); stmt; } else if (f_ == 5) { c08_set_faults(5); stmt; } \
+	else if (f_ == 6) { c08_set_faults(6); stmt; } else { c08_set_faults(7); stmt; } \
+	FAULTS_OFF(); \
+} while (0)
+
 void *c08_malloc(size_t sz)
 {
 	void *p;
-	if (c08_fail_on && vp_bool()) return NULL;
-	p = malloc(sz);
+	if (c08_alloc_fails()) return NULL;
+	/* typed objects where the size identifies the type (cbmc types a heap object from the size expression at the
+	 * malloc call; through a void *f(size_t) wrapper it would be a char[] and every field access a byte extraction) */
+	if (sz == sizeof(struct event)) p = malloc(sizeof(struct event));
+	else if (sz == sizeof(struct event_once)) p = malloc(sizeof(struct event_once));
+	else if (sz == sizeof(struct evwatch)) p = malloc(sizeof(struct evwatch));
+	else if (sz == sizeof(struct common_timeout_list)) p = malloc(sizeof(struct common_timeout_list));
+	else if (sz == sizeof(struct evmap_io)) p = malloc(sizeof(struct evmap_io));
+	else if (sz == sizeof(struct evmap_signal)) p = malloc(sizeof(struct evmap_signal));
+	else p = malloc(sz);
 	__CPROVER_assume(p != NULL);
 	return p;
 }
 void *c08_realloc(void *old, size_t sz)
 {
 	void *p;
-	if (c08_fail_on && vp_bool()) return NULL;
+	if (c08_alloc_fails()) return NULL;
 	p = realloc(old, sz);
 	__CPROVER_assume(p != NULL);
 	return p;
@@ -152,68 +192,152 @@ static int c08_dispatch(struct event_base *b, struct timeval *tv)
 }
 static const struct eventop c08_ops = { "c08", vp_be_init, vp_be_add, vp_be_del, c08_dispatch, vp_be_dealloc, 0, EV_FEATURE_FDS, 0 };
 
-static struct timeval sym_tv(void)
-{
-	struct timeval tv;
-	tv.tv_sec = (long)vp_range(0, 3);
-	tv.tv_usec = (long)vp_range(0, 999999);
-	return tv;
-}
+/* timevals come from a small set, one unmerged branch each: a symbolic duration makes the heap
+ * position of the event symbolic (DESIGN 3.9; measured here: event_add with a symbolic tv > 200 s) */
+#define FOR_TV(stmt) do { \
+	int c_ = (int)vp_range(0, 3); \
+	if (c_ == 0) { const struct timeval *tvp = NULL; stmt; } \
+	else if (c_ == 1) { struct timeval t_ = { 0, 0 }; const struct timeval *tvp = &t_; stmt; } \
+	else if (c_ == 2) { struct timeval t_ = { 1, 0 }; const struct timeval *tvp = &t_; stmt; } \
+	else { struct timeval t_ = { 7, 250000 }; const struct timeval *tvp = &t_; stmt; } \
+} while (0)
+
+/* event masks likewise are concrete per obligation (-DC08_WHAT=0..6): a symbolic mask makes ev_closure and
+ * the evmap-vs-heap decision symbolic (measured: solver out of 4 GB), a symbolic fd makes the evmap slot symbolic */
+#ifndef C08_WHAT
+#define C08_WHAT 1
+#endif
+#if C08_WHAT == 0
+#define WHAT (EV_TIMEOUT)
+#elif C08_WHAT == 1
+#define WHAT (EV_READ)
+#elif C08_WHAT == 2
+#define WHAT (EV_WRITE | EV_CLOSED | EV_TIMEOUT)
+#elif C08_WHAT == 3
+#define WHAT (EV_SIGNAL)
+#elif C08_WHAT == 4
+#define WHAT (EV_READ | EV_PERSIST)
+#elif C08_WHAT == 5
+#define WHAT (EV_READ | EV_ET | EV_FINALIZE)
+#else
+#define WHAT 0
+#endif
+
+#ifdef VP_CBMC
+int fputc(int c, FILE *f) { (void)f; return c; }   /* (cbmc's fprintf model calls it; it has no body of its own) */
+#endif
 
 /* ---- the call under test ---------------------------------------------------- */
 static struct event_callback CB1, CB2;
 static int r_call;
+#if C08_OP == OP_NEW_FREE
+static void new_free_calls(void)
+{
+	int fv = c08_fail_vec;
+	struct event *n = event_new(base, 6, WHAT, cb, NULL);
+	VP_ASSERT_NO_LOCKS("event_new");
+	if (n) {
+		int c = (int)vp_range(0, 2);
+		struct timeval t1 = { 1, 0 };
+		FAULTS_OFF();
+		if (c == 0) { c08_set_faults(fv >> 1); event_free(n); }
+		else if (c == 1) { (void)event_add(n, NULL); c08_set_faults(fv >> 1); event_free(n); }
+		else { (void)event_add(n, &t1); c08_set_faults(fv >> 1); event_free(n); }
+		VP_ASSERT_NO_LOCKS("event_free");
+	}
+}
+#endif
+#if C08_OP == OP_FREE_FINALIZE
+static void free_finalize_calls(void)
+{
+	int fv = c08_fail_vec;
+	struct event *n = event_new(base, 6, EV_READ, cb, NULL);
+	if (n) {
+		FAULTS_OFF();
+		if (vp_bool()) { c08_set_faults(fv >> 1); (void)event_free_finalize(0, n, fin_cb); }
+		else { (void)event_add(n, NULL); c08_set_faults(fv >> 1); (void)event_free_finalize(0, n, fin_cb); }
+		VP_ASSERT_NO_LOCKS("event_free_finalize");
+	}
+}
+#endif
+#if C08_OP == OP_WATCH
+static int watch_calls(int check)
+{
+	struct evwatch *w = check ? evwatch_check_new(base, chk_cb, NULL) : evwatch_prepare_new(base, prep_cb, NULL);
+	VP_ASSERT_NO_LOCKS("evwatch_*_new");
+	if (!w) return 0;
+	VP_ASSERT(evwatch_base(w) == base, "evwatch_base");
+	if (vp_bool()) { evwatch_free(w); VP_ASSERT_NO_LOCKS("evwatch_free"); }
+	return 1;
+}
+#endif
+#if C08_OP == OP_COMMON_TIMEOUT
+static int common_timeout_calls(const struct timeval *tv)
+{
+	const struct timeval *res = NULL;
+	int ok = 0;
+	if (vp_bool()) {           /* the registration itself under faults */
+		FOR_FAULTS((res = event_base_init_common_timeout(base, tv), ok = (res != NULL)));
+		return ok;
+	}
+	res = event_base_init_common_timeout(base, tv);   /* or: registered (preparation), then used under faults */
+	if (!res) return 0;
+	FOR_FAULTS((void)event_add(&E, res));
+	VP_ASSERT_NO_LOCKS("event_add with a common timeout");
+	VP_ASSERT(event_base_init_common_timeout(base, tv) == res, "same duration, same common timeout");
+	VP_ASSERT_NO_LOCKS("event_base_init_common_timeout (existing)");
+	return 1;
+}
+#endif
 static void the_call(void)
 {
 	int r = 0;
 #if C08_OP == OP_ADD
-	{
-		struct timeval tv = sym_tv();
-		r = event_add(&E, vp_bool() ? &tv : NULL);
-		if (r == 0) VP_WITNESS("event_add ok"); else VP_WITNESS("event_add failed");
-	}
+	FOR_FAULTS(FOR_TV(r = event_add(&E, tvp)));
+	if (r == 0) VP_WITNESS("event_add ok");
+#if C08_ST == 0 && C08_KIND != K_TIMER
+	else VP_WITNESS("event_add failed");
+#endif
 #elif C08_OP == OP_DEL
-	r = event_del(&E);
-	if (r == 0) VP_WITNESS("event_del ok"); else VP_WITNESS("event_del failed");
+	FOR_FAULTS(r = event_del(&E));
+	if (r == 0) VP_WITNESS("event_del ok");
+#if C08_ST == 1 && C08_KIND != K_TIMER
+	else VP_WITNESS("event_del failed");
+#endif
 #elif C08_OP == OP_DEL_BLOCK
-	r = event_del_block(&E);
+	FOR_FAULTS(r = event_del_block(&E));
 	VP_WITNESS("event_del_block returned");
 #elif C08_OP == OP_DEL_NOBLOCK
-	r = event_del_noblock(&E);
+	FOR_FAULTS(r = event_del_noblock(&E));
 	VP_WITNESS("event_del_noblock returned");
 #elif C08_OP == OP_ACTIVE
-	event_active(&E, vp_int(), (short)vp_u16());
-	VP_WITNESS("event_active returned");
+	{
+		int res = vp_int(); short nc = (short)vp_u16();
+		FOR_FAULTS(event_active(&E, res, nc));
+		VP_WITNESS("event_active returned");
+	}
 #elif C08_OP == OP_ASSIGN
 	{
 		static struct event N;
 		short what = (short)vp_u16();
-		r = event_assign(&N, base, vp_bool() ? 6 : -1, what, cb, &N);
+		r = event_assign(&N, base, (evutil_socket_t)vp_int(), what, cb, &N);
 		if (r == 0) VP_WITNESS("event_assign ok"); else VP_WITNESS("event_assign rejected");
 	}
 #elif C08_OP == OP_BASE_SET
 	r = event_base_set(base, &E);
 	VP_WITNESS("event_base_set returned");
 #elif C08_OP == OP_NEW_FREE
-	{
-		short what = (short)vp_u16();
-		struct event *n = event_new(base, 6, what, cb, NULL);
-		VP_ASSERT_NO_LOCKS("event_new");
-		if (n) {
-			struct timeval tv = sym_tv();
-			if (vp_bool()) (void)event_add(n, vp_bool() ? &tv : NULL);
-			VP_ASSERT_NO_LOCKS("event_add (new event)");
-			event_free(n);
-			VP_WITNESS("event_new ok, event_free returned");
-		} else VP_WITNESS("event_new failed");
-	}
+	/* event_new under faults, then event_free of the fresh event / of the event after it was added
+	 * (the add is preparation and runs without faults; add-with-faults is OP_ADD) */
+	FOR_FAULTS(new_free_calls());
+	VP_WITNESS("event_new/event_free returned");
 #elif C08_OP == OP_ONCE
-	{
-		struct timeval tv = sym_tv();
-		short what = (short)vp_u16();
-		r = event_base_once(base, vp_bool() ? 6 : -1, what, cb, NULL, vp_bool() ? &tv : NULL);
-		if (r == 0) VP_WITNESS("event_base_once ok"); else VP_WITNESS("event_base_once failed");
-	}
+	if (vp_bool()) FOR_FAULTS(FOR_TV(r = event_base_once(base, 6, WHAT, cb, NULL, tvp)));
+	else FOR_FAULTS(FOR_TV(r = event_base_once(base, -1, WHAT, cb, NULL, tvp)));
+#if C08_WHAT != 3 && C08_WHAT != 4 && C08_WHAT != 6
+	if (r == 0) VP_WITNESS("event_base_once ok");
+#endif
+	if (r != 0) VP_WITNESS("event_base_once failed");
 #elif C08_OP == OP_PRIORITY_SET
 	r = event_priority_set(&E, vp_int());
 	if (r == 0) VP_WITNESS("event_priority_set ok"); else VP_WITNESS("event_priority_set failed");
@@ -227,20 +351,16 @@ static void the_call(void)
 	r = event_base_loopcontinue(base);
 	VP_WITNESS("event_base_loopcontinue returned");
 #elif C08_OP == OP_LOOPEXIT
-	{
-		struct timeval tv = sym_tv();
-		r = event_base_loopexit(base, vp_bool() ? &tv : NULL);
-		if (r == 0) VP_WITNESS("event_base_loopexit ok"); else VP_WITNESS("event_base_loopexit failed");
-	}
+	FOR_FAULTS(FOR_TV(r = event_base_loopexit(base, tvp)));
+	if (r == 0) VP_WITNESS("event_base_loopexit ok"); else VP_WITNESS("event_base_loopexit failed");
 #elif C08_OP == OP_LOOP
-	{
-		/* (from inside a callback or while another loop runs this is the re-entrant invocation) */
-		int fl = vp_bool() ? EVLOOP_NONBLOCK : EVLOOP_ONCE;
-		r = event_base_loop(base, fl);
-		if (r == 0) VP_WITNESS("event_base_loop ran");
-		else if (r == 1) VP_WITNESS("event_base_loop: no events");
-		else VP_WITNESS("event_base_loop failed");
-	}
+	/* (from inside a callback or while another loop runs this is the re-entrant invocation) */
+	if (vp_bool()) FOR_FAULTS(r = event_base_loop(base, EVLOOP_NONBLOCK));
+	else FOR_FAULTS(r = event_base_loop(base, EVLOOP_ONCE));
+#if C08_CTX == 0
+	if (r == 0) VP_WITNESS("event_base_loop ran");
+#endif
+	if (r != 0) VP_WITNESS("event_base_loop failed");
 #elif C08_OP == OP_TIME
 	{
 		struct timeval tv;
@@ -259,56 +379,39 @@ static void the_call(void)
 	}
 #elif C08_OP == OP_FOREACH
 	foreach_ret = vp_int();
-	r = event_base_foreach_event(base, vp_bool() ? foreach_cb : NULL, NULL);
+	if (vp_bool()) r = event_base_foreach_event(base, foreach_cb, NULL);
+	else r = event_base_foreach_event(base, NULL, NULL);
 	if (r == 0) VP_WITNESS("event_base_foreach_event visited all"); else VP_WITNESS("event_base_foreach_event stopped");
 #elif C08_OP == OP_PENDING
 	{
 		struct timeval tv;
-		r = event_pending(&E, (short)vp_u16(), vp_bool() ? &tv : NULL);
+		short what = (short)vp_u16();
+		if (vp_bool()) r = event_pending(&E, what, &tv); else r = event_pending(&E, what, NULL);
 		VP_WITNESS("event_pending returned");
 	}
 #elif C08_OP == OP_FINALIZE
-	r = event_finalize(0, &E, fin_cb);
+	FOR_FAULTS(r = event_finalize(0, &E, fin_cb));
 	VP_WITNESS("event_finalize returned");
 #elif C08_OP == OP_FREE_FINALIZE
-	{
-		struct event *n = event_new(base, 6, EV_READ, cb, NULL);
-		if (n) {
-			if (vp_bool()) (void)event_add(n, NULL);
-			r = event_free_finalize(0, n, fin_cb);
-			VP_WITNESS("event_free_finalize returned");
-		}
-	}
+	FOR_FAULTS(free_finalize_calls());
+	VP_WITNESS("event_free_finalize returned");
 #elif C08_OP == OP_PRIORITY_INIT
 	{
-		int c = (int)vp_range(0, 4), n = c == 0 ? vp_int() : c == 1 ? 1 : c == 2 ? 2 : c == 3 ? 3 : 255;
-		__CPROVER_assume(c != 0 || n < 1 || n >= 256);
-		r = event_base_priority_init(base, n);
+		int c = (int)vp_range(0, 4);
+		if (c == 0) { int n = vp_int(); __CPROVER_assume(n < 1 || n >= 256); r = event_base_priority_init(base, n); }
+		else if (c == 1) FOR_FAULTS(r = event_base_priority_init(base, 1));
+		else if (c == 2) FOR_FAULTS(r = event_base_priority_init(base, 2));
+		else if (c == 3) FOR_FAULTS(r = event_base_priority_init(base, 3));
+		else FOR_FAULTS(r = event_base_priority_init(base, 5));
 		if (r == 0) VP_WITNESS("event_base_priority_init ok"); else VP_WITNESS("event_base_priority_init failed");
 	}
 #elif C08_OP == OP_COMMON_TIMEOUT
-	{
-		struct timeval tv; const struct timeval *res;
-		tv.tv_sec = (long)vp_range(0, 3); tv.tv_usec = (long)vp_range(0, 2000000);
-		res = event_base_init_common_timeout(base, &tv);
-		VP_ASSERT_NO_LOCKS("event_base_init_common_timeout");
-		if (res) {
-			r = event_add(&E, res);
-			VP_ASSERT_NO_LOCKS("event_add with a common timeout");
-			res = event_base_init_common_timeout(base, &tv);
-			VP_WITNESS("event_base_init_common_timeout ok");
-		} else VP_WITNESS("event_base_init_common_timeout failed");
-	}
+	if (vp_bool()) { struct timeval tv = { 1, 0 }; r = common_timeout_calls(&tv); }
+	else { struct timeval tv = { 0, 1500000 }; r = common_timeout_calls(&tv); }
+	if (r) VP_WITNESS("event_base_init_common_timeout ok"); else VP_WITNESS("event_base_init_common_timeout failed");
 #elif C08_OP == OP_WATCH
-	{
-		struct evwatch *w = vp_bool() ? evwatch_prepare_new(base, prep_cb, NULL) : evwatch_check_new(base, chk_cb, NULL);
-		VP_ASSERT_NO_LOCKS("evwatch_*_new");
-		if (w) {
-			VP_ASSERT(evwatch_base(w) == base, "evwatch_base");
-			if (vp_bool()) { evwatch_free(w); VP_WITNESS("evwatch new+free"); }
-			else VP_WITNESS("evwatch new");
-		} else VP_WITNESS("evwatch_*_new failed");
-	}
+	if (vp_bool()) FOR_FAULTS(r = watch_calls(0)); else FOR_FAULTS(r = watch_calls(1));
+	if (r) VP_WITNESS("evwatch new (+free)"); else VP_WITNESS("evwatch_*_new failed");
 #elif C08_OP == OP_GETTERS
 	{
 		unsigned ty = vp_u32();
@@ -328,11 +431,15 @@ static void the_call(void)
 #elif C08_OP == OP_ACTIVE_BY_FD
 	{
 		int c = (int)vp_range(0, 3);
-		event_base_active_by_fd(base, c == 0 ? 3 : c == 1 ? 4 : c == 2 ? -1 : 40, (short)vp_u16());
+		short what = (short)vp_u16();
+		if (c == 0) event_base_active_by_fd(base, 3, what);
+		else if (c == 1) event_base_active_by_fd(base, 4, what);
+		else if (c == 2) event_base_active_by_fd(base, -1, what);
+		else event_base_active_by_fd(base, 40, what);
 		VP_WITNESS("event_base_active_by_fd returned");
 	}
 #elif C08_OP == OP_ACTIVE_BY_SIGNAL
-	event_base_active_by_signal(base, vp_bool() ? 2 : 7);
+	if (vp_bool()) event_base_active_by_signal(base, 2); else event_base_active_by_signal(base, 7);
 	VP_WITNESS("event_base_active_by_signal returned");
 #elif C08_OP == OP_VIRTUAL
 	event_base_add_virtual_(base);
@@ -340,9 +447,9 @@ static void the_call(void)
 	event_base_del_virtual_(base);
 	VP_WITNESS("virtual add/del returned");
 #elif C08_OP == OP_NOTIFIABLE
-	vp_pipe_fail = vp_bool();
 	base->th_notify_fn = NULL;       /* as in a base that was created before threading was switched on */
-	r = evthread_make_base_notifiable(base);
+	if (vp_bool()) { vp_pipe_fail = 1; r = evthread_make_base_notifiable(base); }
+	else { vp_pipe_fail = 0; FOR_FAULTS(r = evthread_make_base_notifiable(base)); }
 	if (r == 0) VP_WITNESS("evthread_make_base_notifiable ok"); else VP_WITNESS("evthread_make_base_notifiable failed");
 #elif C08_OP == OP_CALLBACK
 	event_callback_init_(base, &CB1);
@@ -352,7 +459,7 @@ static void the_call(void)
 	else { event_callback_finalize_(base, 0, &CB1, cbfin_cb); }
 	VP_WITNESS("event_callback_* returned");
 #elif C08_OP == OP_DEFERRED
-	event_deferred_cb_init_(&CB1, (ev_uint8_t)vp_range(0, 1), self_cb, NULL);
+	if (vp_bool()) event_deferred_cb_init_(&CB1, 0, self_cb, NULL); else event_deferred_cb_init_(&CB1, 1, self_cb, NULL);
 	r = event_deferred_cb_schedule_(base, &CB1); VP_ASSERT_NO_LOCKS("event_deferred_cb_schedule_");
 	r = event_deferred_cb_schedule_(base, &CB1); VP_ASSERT_NO_LOCKS("event_deferred_cb_schedule_ (again)");
 	if (vp_bool()) event_deferred_cb_cancel_(base, &CB1);
@@ -365,15 +472,15 @@ static void the_call(void)
 		struct event_callback *v[2] = { &CB1, &CB2 };
 		event_deferred_cb_init_(&CB1, 0, self_cb, NULL);
 		event_deferred_cb_init_(&CB2, 1, self_cb, NULL);
-		if (vp_bool()) (void)event_deferred_cb_schedule_(base, &CB2);
-		r = event_callback_finalize_many_(base, 2, v, cbfin_cb);
+		if (vp_bool()) { (void)event_deferred_cb_schedule_(base, &CB2); r = event_callback_finalize_many_(base, 2, v, cbfin_cb); }
+		else r = event_callback_finalize_many_(base, 2, v, cbfin_cb);
 		VP_WITNESS("event_callback_finalize_many_ returned");
 	}
 #elif C08_OP == OP_ASSERT_OK
 	event_base_assert_ok_(base);
 	VP_WITNESS("event_base_assert_ok_ returned");
 #elif C08_OP == OP_BASE_FREE
-	if (vp_bool()) event_base_free(base); else event_base_free_nofinalize(base);
+	if (vp_bool()) FOR_FAULTS(event_base_free(base)); else FOR_FAULTS(event_base_free_nofinalize(base));
 	VP_WITNESS("event_base_free returned");
 #else
 #error "unknown C08_OP"
@@ -405,9 +512,7 @@ void harness_api(void)
 	event_active(&E, EV_READ, 1);
 #endif
 	VP_ASSERT_NO_LOCKS("setup");
-	/* from here on the solver decides every fault */
-	c08_fail_on = 1;
-	vp_be_fail_add = vp_bool(); vp_be_fail_del = vp_bool(); vp_be_fail_dispatch = vp_bool(); vp_sig_fail = vp_bool();
+	/* (faults are switched on by FOR_FAULTS around the call under test) */
 #if C08_CTX == 0
 	op_done = 1;
 	the_call();
